@@ -130,6 +130,9 @@ class IH5MFRecord(IH5Record):
     _manifest_file: Optional[Path] = None
     """File the manifest was loaded from or written to (it can be given explicitly)."""
 
+    _inherited_exts: Optional[Dict[str, Any]] = None
+    """Manifest extensions of an older container, if the newest one has no manifest."""
+
     @property
     def manifest(self) -> IH5Manifest:
         """Return loaded manifest object of latest committed record patch."""
@@ -218,6 +221,19 @@ class IH5MFRecord(IH5Record):
 
             ret._manifest = IH5Manifest.parse_file(manifest_file)
             ret._manifest_file = manifest_file
+        else:
+            # Not every patch needs a manifest (e.g. a patch made as plain IH5Record).
+            # The extensions are inherited until overridden, so look for the newest
+            # older container with a (still unmodified) manifest at its usual place.
+            for i in reversed(range(len(ret._files) + idx)):
+                old_ext = IH5UBExtManifest.get(ret._ublock(i))
+                old_file = cls._manifest_filepath(ret._files[i].filename)
+                if old_ext is None or not old_file.is_file():
+                    continue
+                if old_ext.manifest_hashsum == hashsum_file(old_file):
+                    old_mf = IH5Manifest.parse_file(old_file)
+                    ret._inherited_exts = old_mf.manifest_exts
+                break
             # NOTE: as long as we enforce checksum of manifest, this failure can't happen:
             # if ubext.manifest_uuid != self._manifest.manifest_uuid:
             #     raise ValueError(f"{ub._filename}: Manifest file has wrong UUID!")
@@ -286,6 +302,8 @@ class IH5MFRecord(IH5Record):
         mf = self._fresh_manifest()
         if self._manifest is not None:  # inherit attached data, if manifest exists
             mf.manifest_exts = deepcopy(self.manifest.manifest_exts)
+        elif self._inherited_exts is not None:  # ... or of an older container
+            mf.manifest_exts = deepcopy(self._inherited_exts)
         if exts is not None:  # override, if extensions provided
             mf.manifest_exts = deepcopy(exts)  # (the caller keeps the passed dict)
 
